@@ -11,7 +11,10 @@ MCLens == {0, 1, 2, 3, 4, 5, 127, 128, 129, 130, 255, 256, 257, 511, 512, 513, 4
 \* abstract pipeline output lengths; codecs emit at least one byte (assumption A1 of the check)
 MCOut(n) == {c \in {1, 2, 20, 44, 150, n \div 1001, n \div 1000, n \div 999, n - 2, n - 1, n, n + 8} : c >= 1}
 
-MCInit == CInitWith(Selectors, MCLens, MCOut)
+\* the full selector x length x output product with no history, and the supported selectors with every history volume
+MCInit == \/ CInitWithH(Selectors, MCLens, MCOut, {0})
+          \/ CInitWithH(LosslessSingles \cup AdpcmSelectors, MCLens, MCOut, HistVolumes \ {0})
+NegShared == FALSE
 MCNext == CNext
 
 ASSUME SupportedInvert
